@@ -71,7 +71,8 @@ fn result_json(koto: &mut Koto, r: std::result::Result<koto::Result<KValue>, pan
                     resp.insert("internal_fault".into(), json!(tag));
                 }
                 resp.insert("error".into(), json!(msg));
-                resp.insert("trace".into(), json!(trace));
+                // a deep recursion leaves a trace of millions of frames: only its head travels to the driver
+                resp.insert("trace".into(), json!(exec::clip(&trace, 20_000)));
             }
             Err(p) => {
                 resp.insert("outcome".into(), json!("panic"));
@@ -106,7 +107,10 @@ pub fn op(req: &Value) -> Value {
         match name {
             "inst_run" => {
                 let r = ExecRequest::from_json(req);
+                let t_call = std::time::Instant::now();
                 let result = panics::guarded(|| inst.koto.compile_and_run(exec::compile_args(&r)));
+                // time until the host API returned (rendering the error text below is the host's own cost)
+                resp.insert("call_us".into(), json!(t_call.elapsed().as_micros() as u64));
                 resp.insert("stdout".into(), json!(inst.out.take()));
                 result_json(&mut inst.koto, result, &mut resp);
             }
